@@ -36,7 +36,7 @@ def main(tier):
     rs, viol = ck.run('parseLine-two-orders', jobs, bounds={'line_len': '0..%d' % N, 'patterns': 7})
     ck.triage(viol)
     shapes = (2, 4, 5, 6, 7) if tier == 'quick' else (0, 1, 2, 3, 4, 5, 6, 7)
-    jobs = [('regex/parser.VerifC07Expand', dict(params={'shape': sh}, unwind=30, hooks={'choice_strings': True}, timeout_ms=240000, terminal_obligations=())) for sh in shapes]
+    jobs = [('regex/parser.VerifC07Expand', dict(params={'shape': sh}, unwind=30, hooks={'choice_strings': True, 'max_replace': 6}, timeout_ms=240000, terminal_obligations=())) for sh in shapes]
     rs, viol = ck.run('expandDefinitions-all-orders', jobs, bounds={'shapes': list(shapes)})
     ck.triage(viol)
     return ck.finish()
